@@ -126,7 +126,14 @@ def gen_block_general(rng, l, harm):
     for _ in range(ncon):
         cols.append([num(rng, -3, 1, neg=True) if i < nprim - 1 or rng.random() < 0.5 else rng.choice(ZERO_FORMS) for i in range(nprim)])
     nfree = rng.randrange(0, 3)
+    doomed = nprim >= 4 and rng.random() < 0.25
+    if doomed:
+        nfree = 3
     rows = rng.sample(range(nprim), min(nfree, nprim))
+    if doomed:
+        # a contraction built only of primitives that are also free functions: optimize_general empties and drops it, and the
+        # free primitives listed after it must survive that
+        cols.append([num(rng, -2, 1, neg=True) if i in rows[:2] else rng.choice(ZERO_FORMS) for i in range(nprim)])
     for r in rows:
         cols.append([rng.choice(['1.0', '1.00000000', '1.0000000E+00']) if i == r else rng.choice(ZERO_FORMS) for i in range(nprim)])
     from decimal import Decimal
@@ -191,8 +198,11 @@ def gen_element(rng, harm, kind=None, maxl=None):
                     ex = [respell(rng, x) for x in ex]
                 extra = exps_desc(rng, rng.randrange(0, 3), top=-3)
                 ex = ex + [x for x in extra]
+                # one to three contractions: a generally contracted shell that shares primitives with an earlier shell makes the
+                # merging code fold rows with several non-zero coefficients
+                ncol = rng.choice([1, 1, 2, 3])
                 shells.append(dict(function_type=prev['function_type'], region=rng.choice(['', 'diffuse']), angular_momentum=[l], exponents=ex,
-                                   coefficients=[[num(rng, -2, 1, neg=True) for _ in ex]]))
+                                   coefficients=[[num(rng, -2, 1, neg=True) for _ in ex] for _ in range(ncol)]))
         el['electron_shells'] = dedup_shells(shells)
     if kind in ('ecp', 'ecponly'):
         el['ecp_potentials'], el['ecp_electrons'] = gen_ecp(rng)
